@@ -112,15 +112,76 @@ Fixpoint del_loop (t pos ins del : Z) (origin prevOrigin : node)
       end
   end.
 
-(* ---------- Update ---------- *)
-Definition update (t pos ins del : Z) (s : list node) : result (list node * list delta_rec) :=
-  if t <? 0 then Panic PTimeNeg else
-  if t >=? MaxU32 then Panic PTimeBig else
-  if pos <? 0 then Panic PPosNeg else
-  if pos >? MaxU32 then Panic PPosBig else
-  if (ins <? 0) || (del <? 0) then Panic PLenNeg else
-  if (ins >? MaxU32) || (del >? MaxU32) then Panic PLenBig else
-  if Z.lor ins del =? 0 then Ok (s, []) else
+(* ---------- Update, block by block ---------- *)
+
+(* "prepare for the keys update": insert our new interval, or roll the iterator one position back.
+   origin1 / L1 / r :: right_rest are what the deletion loop left (r = iter.Item()).
+   Result: (nodes up to and including the iterator, nodes after it, origin). *)
+Definition prepare (t pos ins del : Z) (origin1 : node) (L1 : list node) (r : node) (right_rest : list node)
+  : list node * list node * node :=
+  if (ins >? 0) && (negb (snd origin1 =? u32 t) || (fst origin1 >=? u32 pos)) then
+    if (snd r =? u32 t) && (fst r - del =? pos) then
+      match last_opt L1 with
+      | Some p =>
+        if negb (snd p =? u32 t)
+        then (L1 ++ [(u32 pos, snd r)], right_rest, (fst origin1, u32 t)) (* iter.Item().Key = uint32(pos) *)
+        else (L1, right_rest, (fst origin1, u32 t))                       (* delete iter; iter = prev *)
+      | None => ([(u32 pos, snd r)], right_rest, (fst origin1, u32 t))    (* prev.NegativeLimit() *)
+      end
+    else (L1 ++ [(u32 pos, u32 t)], r :: right_rest, origin1)             (* _, iter = tree.Insert(pos, time) *)
+  else (L1, r :: right_rest, origin1).                                    (* iter = iter.Prev() *)
+
+(* "update the keys of all subsequent nodes" and the final conditional Insert.
+   previous = the item under the rolled-back iterator (None: nil, or the other branch was taken). *)
+Definition finish (t pos ins del : Z) (prevOrigin : node) (previous : option node)
+           (before after : list node) (origin2 : node) : list node :=
+  let delta := ins - del in
+  let s3 := if delta =? 0 then before ++ after else before ++ shift32 delta after in
+  let okey := if negb (delta =? 0) && (fst origin2 >? u32 pos) then fst origin2 + delta else fst origin2 in
+  if ins >? 0 then
+    if negb (snd origin2 =? u32 t) then insert (u32 (pos + ins)) (snd origin2) s3
+    else if pos =? 0 then insert (u32 pos) (u32 t) s3 else s3
+  else
+    if ((pos >? okey) && (match previous with Some p => negb (snd p =? snd origin2) | None => false end))
+       || ((pos =? okey) && negb (snd origin2 =? snd prevOrigin)) || (pos =? 0)
+    then insert (u32 pos) (snd origin2) s3 else s3.
+
+(* the "simple case with insertions only" *)
+Definition ins_only (t pos ins : Z) (L : list node) (origin : node) (rest : list node) : list node :=
+  let adv := (fst origin <? u32 pos)
+             || ((snd origin =? u32 t) && ((pos =? 0) || (u32 pos =? fst origin))) in
+  let base := if adv then L ++ origin :: shift32 (u32 ins) rest
+              else L ++ shift32 (u32 ins) (origin :: rest) in
+  if negb (snd origin =? u32 t) then
+    let s2 := insert (u32 pos) (u32 t) base in
+    if fst origin <? u32 pos then insert (u32 (pos + ins)) (snd origin) s2 else s2
+  else base.
+
+(* everything after iter := tree.FindLE(uint32(pos)): the tree is L ++ origin :: rest, iter at origin *)
+Definition update_body (t pos ins del : Z) (L : list node) (origin : node) (rest : list node)
+  : result (list node * list delta_rec) :=
+  let prevOrigin := match last_opt L with Some p => p | None => origin end in
+  match (if ins >? 0 then update_time t t ins else Ok []) with
+  | Panic c => Panic c
+  | Ok reps0 =>
+    if del =? 0 then Ok (ins_only t pos ins L origin rest, reps0)
+    else
+      match del_loop t pos ins del origin prevOrigin L origin rest reps0 with
+      | Panic c => Panic c
+      | Ok (origin1, L1, right1, reps1) =>
+        match right1 with
+        | [] => Panic PNil
+        | r :: right_rest =>
+          let condA := (ins >? 0) && (negb (snd origin1 =? u32 t) || (fst origin1 >=? u32 pos)) in
+          let '(before, after, origin2) := prepare t pos ins del origin1 L1 r right_rest in
+          let previous := if condA then None else last_opt L1 in
+          Ok (finish t pos ins del prevOrigin previous before after origin2, reps1)
+        end
+      end
+  end.
+
+(* the state-dependent guards and FindLE *)
+Definition update_core (t pos ins del : Z) (s : list node) : result (list node * list delta_rec) :=
   match s with
   | [] => Panic PNil
   | n0 :: tl =>
@@ -130,62 +191,20 @@ Definition update (t pos ins del : Z) (s : list node) : result (list node * list
   if u32 pos <? fst n0 then Panic PNil (* FindLE gives the negative limit: *iter.Item() *) else
   match find_le (u32 pos) [] s with
   | None => Panic PNil
-  | Some (L, origin, rest) =>
-    let prevOrigin := match last_opt L with Some p => p | None => origin end in
-    match (if ins >? 0 then update_time t t ins else Ok []) with
-    | Panic c => Panic c
-    | Ok reps0 =>
-    if del =? 0 then
-      (* simple case with insertions only *)
-      let adv := (fst origin <? u32 pos)
-                 || ((snd origin =? u32 t) && ((pos =? 0) || (u32 pos =? fst origin))) in
-      let base := if adv then L ++ origin :: shift32 (u32 ins) rest
-                  else L ++ shift32 (u32 ins) (origin :: rest) in
-      let s1 := if negb (snd origin =? u32 t) then
-                  let s2 := insert (u32 pos) (u32 t) base in
-                  if fst origin <? u32 pos then insert (u32 (pos + ins)) (snd origin) s2 else s2
-                else base in
-      Ok (s1, reps0)
-    else
-      match del_loop t pos ins del origin prevOrigin L origin rest reps0 with
-      | Panic c => Panic c
-      | Ok (origin1, L1, right1, reps1) =>
-        match right1 with
-        | [] => Panic PNil
-        | r :: right_rest =>
-          (* prepare for the keys update *)
-          let condA := (ins >? 0) && (negb (snd origin1 =? u32 t) || (fst origin1 >=? u32 pos)) in
-          let '(before, after, origin2) :=
-            if condA then
-              if (snd r =? u32 t) && (fst r - del =? pos) then
-                match last_opt L1 with
-                | Some p =>
-                  if negb (snd p =? u32 t)
-                  then (L1 ++ [(u32 pos, snd r)], right_rest, (fst origin1, u32 t)) (* iter.Item().Key = uint32(pos) *)
-                  else (L1, right_rest, (fst origin1, u32 t))                       (* delete iter; iter = prev *)
-                | None => ([(u32 pos, snd r)], right_rest, (fst origin1, u32 t))    (* prev.NegativeLimit() *)
-                end
-              else (L1 ++ [(u32 pos, u32 t)], right1, origin1)                      (* _, iter = tree.Insert(pos, time) *)
-            else (L1, right1, origin1) in                                          (* iter = iter.Prev() *)
-          let previous := if condA then None else last_opt L1 in
-          (* update the keys of all subsequent nodes *)
-          let delta := ins - del in
-          let s3 := if delta =? 0 then before ++ after else before ++ shift32 delta after in
-          let okey := if negb (delta =? 0) && (fst origin2 >? u32 pos) then fst origin2 + delta else fst origin2 in
-          let s4 :=
-            if ins >? 0 then
-              if negb (snd origin2 =? u32 t) then insert (u32 (pos + ins)) (snd origin2) s3
-              else if pos =? 0 then insert (u32 pos) (u32 t) s3 else s3
-            else
-              if ((pos >? okey) && (match previous with Some p => negb (snd p =? snd origin2) | None => false end))
-                 || ((pos =? okey) && negb (snd origin2 =? snd prevOrigin)) || (pos =? 0)
-              then insert (u32 pos) (snd origin2) s3 else s3 in
-          Ok (s4, reps1)
-        end
-      end
-    end
+  | Some (L, origin, rest) => update_body t pos ins del L origin rest
   end
   end.
+
+(* func (file *File) Update(time int, pos int, insLength int, delLength int) *)
+Definition update (t pos ins del : Z) (s : list node) : result (list node * list delta_rec) :=
+  if t <? 0 then Panic PTimeNeg else
+  if t >=? MaxU32 then Panic PTimeBig else
+  if pos <? 0 then Panic PPosNeg else
+  if pos >? MaxU32 then Panic PPosBig else
+  if (ins <? 0) || (del <? 0) then Panic PLenNeg else
+  if (ins >? MaxU32) || (del >? MaxU32) then Panic PLenBig else
+  if Z.lor ins del =? 0 then Ok (s, []) else
+  update_core t pos ins del s.
 
 (* ---------- operation sequences ---------- *)
 Notation op := (Z * Z * Z * Z)%type (only parsing).      (* time, pos, insLength, delLength *)
